@@ -7,6 +7,7 @@ import (
 	"sync"
 
 	"verif/harness/cat"
+	"verif/harness/lib"
 	"verif/harness/univ"
 )
 
@@ -79,7 +80,13 @@ func nilResults(c *cat.Catalog, want *Entry) *Entry {
 	}
 	isNil := func(p univ.Prov) bool {
 		f := c.Fns[p.F]
-		return f != nil && f.Enc.NilRes && p.E == 0 && p.I >= 1 && p.I <= len(f.Rs) && f.Rs[p.I-1].M != "flat" && !(f.Kind == "dec" && f.Rs[p.I-1].M == "grp")
+		if f == nil || !f.Enc.NilRes || p.I < 1 || p.I > len(f.Rs) {
+			return false
+		}
+		if f.Rs[p.I-1].M == "flat" {
+			return p.E == 1 // the first member of a flattened slice
+		}
+		return p.E == 0 && !(f.Kind == "dec" && f.Rs[p.I-1].M == "grp")
 	}
 	w := *want
 	w.Log = append([]Event(nil), want.Log...)
@@ -368,7 +375,7 @@ func CompareEntry(c *cat.Catalog, dry bool, idx int, want, got *Entry) []Diverge
 	}
 	for _, ev := range gcb {
 		if fn := c.Fns[ev.F]; fn != nil && fn.Enc.Lib != "" {
-			if wantName := "verif/harness/lib." + fn.Enc.Lib; ev.Name != wantName {
+			if wantName := lib.RuntimeName(fn.Enc.Lib); ev.Name != wantName {
 				add("cb.name", fmt.Sprintf("%s: callback Name want %q got %q", ctx, wantName, ev.Name), false)
 			}
 		}
